@@ -289,13 +289,15 @@ class FakeClock:
                 clock.k += 1
                 return v
 
+        real = datetime
+
         class _Mod:
+            timedelta = real.timedelta
+            UTC = real.UTC
+            timezone = real.timezone
+            date = real.date
+            time = real.time
             datetime = _DT
-            timedelta = datetime.timedelta
-            UTC = datetime.UTC
-            timezone = datetime.timezone
-            date = datetime.date
-            time = datetime.time
         self.mod = _Mod
 
 
